@@ -2,3 +2,4 @@ import MC.Props.C18
 import MC.Props.C17
 import MC.Props.C12
 import MC.Props.C11
+import MC.Props.C13
